@@ -51,8 +51,8 @@ def m2w(m):
 
 
 def gen_op(rng, thorough):
-    kinds = ["setLattice", "setLatticeBad", "setU", "setUBad", "setUb", "setUbBad", "setMiscut", "calcUb", "calcUbParallel", "refineUb"]
-    w = [16, 4, 14, 3, 10, 3, 16, 10, 4, 8]
+    kinds = ["setLattice", "setLatticeBad", "setU", "setUBad", "setUb", "setUbBad", "setMiscut", "calcUb", "calcUbParallel", "refineUb", "calcUbSingle"]
+    w = [16, 4, 14, 3, 10, 3, 16, 10, 4, 8, 5]
     kinds.append("fitUb"); w.append(4 if thorough else 3)     # both refinement entry points change the lattice and / or U through their own route
     return rng.choices(kinds, weights=w)[0]
 
@@ -137,6 +137,17 @@ def run_history(rng, maxlen, thorough, record):
                             ub.calc_ub(*ids); out = "ok-unexpected"
                         else:
                             ub.calc_ub(*ids); line = "ub calcUb " + m2w(ub.U)
+                elif k == "calcUbSingle":
+                    # orientation from one reflection alone (the axis-angle construction)
+                    if ub.crystal is None:
+                        continue
+                    ub.reflist.reflections.clear(); ub.orientlist.orientations.clear()
+                    ub.add_reflection((rng.randint(-2, 2), rng.randint(-2, 2), rng.randint(1, 3)), Position(*[rng.uniform(5, 60) for _ in range(6)]), 12.0, "s1")
+                    if rng.random() < 0.5:
+                        ub.calc_ub()
+                    else:
+                        ub.calc_ub(rng.choice([1, "s1"]))
+                    line = "ub calcUb " + m2w(ub.U)
                 elif k == "refineUb":
                     if ub.crystal is None or ub.UB is None:
                         continue
